@@ -28,13 +28,19 @@ PROPERTY = "C14"
 CASE = {}
 KERNELS = ["gunicorn.arbiter:Arbiter.stop", "gunicorn.arbiter:Arbiter.reexec", "gunicorn.arbiter:Arbiter.start",
            "gunicorn.arbiter:Arbiter.maybe_promote_master", "gunicorn.arbiter:Arbiter.reap_workers",
-           "gunicorn.arbiter:Arbiter.handle_usr2", "gunicorn.arbiter:Arbiter.halt", "gunicorn.sock:close_sockets"]
+           "gunicorn.arbiter:Arbiter.handle_usr2", "gunicorn.arbiter:Arbiter.halt", "gunicorn.sock:close_sockets",
+           "gunicorn.sock:create_sockets", "gunicorn.sock:BaseSocket.__init__", "gunicorn.sock:BaseSocket.set_options",
+           "gunicorn.pidfile:Pidfile.rename"]
 STUBS = ["simulated kernel; os.execvpe / os.chdir / os.environ inside gunicorn.arbiter -> recorders; listeners -> recording "
          "objects with a unix path name and a fileno; os.unlink inside gunicorn.sock -> shared path table; Pidfile -> recorder; "
-         "systemd.listen_fds -> harness value; init_signals -> no-op"]
+         "systemd.listen_fds -> harness value; init_signals -> no-op",
+         "C14.adopt: the socket module inside gunicorn.sock -> descriptor-table model (FdTable: socket()/fromfd() give "
+         "non-inheritable descriptors, fromfd duplicates, exec keeps exactly the inheritable ones)",
+         "C14.start_pidfiles: real Pidfile on engine/stubs/fs.py"]
 ASSUMPTIONS = ["exec of the new binary = constructing a second Arbiter object from the recorded environment",
-               "fd inheritance by the kernel is assumed (the new master adopts exactly the fds named in GUNICORN_FD)"]
-OUTSIDE = ["real execvpe / fd inheritance", "clients during the hand-over", "TCP-only binds have no file to unlink"]
+               "fd inheritance by the kernel follows PEP 446 as modelled in FdTable (C14.adopt); elsewhere the new master adopts "
+               "exactly the fds named in GUNICORN_FD"]
+OUTSIDE = ["real execvpe, real descriptors", "clients during the hand-over", "TCP-only binds have no file to unlink"]
 
 SOCK = "/run/g.sock"
 
@@ -298,6 +304,129 @@ def start_pidfiles(old_left_file: bool, ppid_is_old: bool, stale2: bool) -> bool
     return fs.files == {"/run/g.pid": b"41\n"} and not fs.fds
 
 
+# ---- 3c. adopting the listeners: the real sock.create_sockets / BaseSocket.__init__ on a descriptor-table model ---------------
+class FdTable:
+    """open descriptors -> (open socket description id, inheritable flag).  Contract modelled (PEP 446, socket docs):
+    socket.socket() and socket.fromfd() return NON-inheritable descriptors (fromfd duplicates); os.close drops one
+    descriptor; a description stays alive while any descriptor refers to it; exec keeps exactly the inheritable ones."""
+
+    def __init__(self):
+        self.fds = {}
+        self.desc = {}
+        self.next_fd = 20
+        self.next_desc = 0
+
+    def new_desc(self, name, listening=False):
+        self.next_desc += 1
+        self.desc[self.next_desc] = {"name": name, "listening": listening, "blocking": True, "bound": name is not None}
+        return self.next_desc
+
+    def new_fd(self, desc, inheritable=False):
+        self.next_fd += 1
+        self.fds[self.next_fd] = [desc, inheritable]
+        return self.next_fd
+
+
+class FSock:
+    def __init__(self, T, fd):
+        self.T, self.fd = T, fd
+
+    def _d(self):
+        return self.T.desc[self.T.fds[self.fd][0]]
+
+    def fileno(self):
+        return self.fd
+
+    def getsockname(self):
+        return self._d()["name"]
+
+    def setsockopt(self, *a):
+        pass
+
+    def bind(self, addr):
+        self._d()["name"] = addr
+        self._d()["bound"] = True
+
+    def listen(self, backlog):
+        self._d()["listening"] = True
+
+    def setblocking(self, f):
+        self._d()["blocking"] = f
+
+    def set_inheritable(self, f):
+        self.T.fds[self.fd][1] = bool(f)
+
+    def get_inheritable(self):
+        return self.T.fds[self.fd][1]
+
+    def close(self):
+        self.T.fds.pop(self.fd, None)
+
+
+def adopt(fresh: bool, unix: bool, gens: int) -> bool:
+    """
+    pre: 1 <= gens <= 3
+    post: __return__
+    """
+    # generation 1 binds (fresh) or is handed descriptor 3 (e.g. by a service manager / an older master); every following
+    # generation is "exec'd": only inheritable descriptors survive, their numbers are passed on as GUNICORN_FD.  After
+    # every generation the listener must be the same open socket, listening, and inheritable again for the next upgrade.
+    import socket as _socket
+    gens = pick(gens, 1, 3)
+    T = FdTable()
+    addr = "/run/g.sock" if unix else ("127.0.0.1", 8000)
+    conf = SimpleNamespace(address=[addr], reuse_port=False, backlog=64, certfile=None, keyfile=None, umask=0, uid=0, gid=0,
+                           is_ssl=False)
+    log = KS.NullLog()
+    saved = (GS.socket, GS.os, GS.util)
+
+    def fromfd(fd, family, type_):
+        return FSock(T, T.new_fd(T.fds[fd][0], inheritable=False))
+
+    def mk_socket(family, type_):
+        return FSock(T, T.new_fd(T.new_desc(None), inheritable=False))
+    GS.socket = ns("GS.socket", socket=mk_socket, fromfd=fromfd, **{k: getattr(_socket, k) for k in (
+        "AF_INET", "AF_INET6", "AF_UNIX", "SOCK_STREAM", "SOL_SOCKET", "SO_REUSEADDR", "IPPROTO_TCP", "TCP_NODELAY")})
+    GS.os = ns("GS.os", close=lambda fd: T.fds.pop(fd, None), stat=_raise_enoent, umask=lambda m: 0,
+               path=ns("GS.os.path", exists=lambda p: True), unlink=lambda p: None, remove=lambda p: None)
+    GS.util = ns("GS.util", chown=lambda p, u, g: None, is_ipv6=lambda a: False)
+    try:
+        handed = None
+        if not fresh:
+            d0 = T.new_desc(addr, listening=True)
+            T.fds[3] = [d0, True]
+            handed = [3]
+        the_desc = None
+        for g in range(gens):
+            ls = GS.create_sockets(conf, log, handed)
+            if len(ls) != 1:
+                return False
+            fd = ls[0].sock.fileno()
+            if fd not in T.fds:
+                return False
+            desc = T.fds[fd][0]
+            if the_desc is None:
+                the_desc = desc
+            if desc != the_desc:
+                return False                              # not the very same listening socket any more
+            dd = T.desc[desc]
+            if not dd["listening"] or dd["blocking"] or dd["name"] != addr:
+                return False
+            if not T.fds[fd][1]:
+                return False                              # would not survive the next exec: the next upgrade has no listener
+            # exec of the next master: close-on-exec descriptors vanish, GUNICORN_FD names the listener
+            T.fds = {k: v for k, v in T.fds.items() if v[1]}
+            handed = [fd]
+        return True
+    finally:
+        GS.socket, GS.os, GS.util = saved
+
+
+def _raise_enoent(path):
+    import errno as _e
+    raise OSError(_e.ENOENT, "No such file or directory")
+
+
 # ---- 4. reap clears reexec_pid -----------------------------------------------------------------------------------------------
 def reap_reexec(status: int, other_first: bool) -> bool:
     """
@@ -439,6 +568,9 @@ OBLIGATIONS = [
     Ob("C14.start_pidfiles", "start_pidfiles", timeout=300,
        bound="upgraded start + promotion with the real Pidfile class on the FS stub: old master alive / gone, its file left behind or "
              "removed, stale '.2' file present or not"),
+    Ob("C14.adopt", "adopt", timeout=300,
+       bound="real sock.create_sockets / BaseSocket.__init__ over a descriptor-table model (fromfd duplicates, new descriptors are "
+             "non-inheritable, exec keeps inheritable ones): TCP or unix listener, bound fresh or handed over, 1..3 generations"),
     Ob("C14.reap_reexec", "reap_reexec", timeout=300, bound="new master exits with status {0, 9, 3<<8, 1<<8}, with/without a worker exiting first"),
     Ob("C14.history", "history", cases={"quick": [{"n": 3}], "thorough": [{"n": 4}, {"n": 5}]}, timeout={"quick": 600, "thorough": 2400},
        bound="histories of 3 (thorough 4, 5) events from {USR2 old, TERM old, TERM new, USR2 again} over two Arbiter objects"),
